@@ -57,6 +57,11 @@ func (ps *pathState) Resolve(v ssa.Value) ssa.Value {
 				v = val
 				continue
 			}
+			// a cell with a single store in the entry block (a spilled parameter or once-assigned local)
+			if st := singleStore(a); st != nil && st.Block() == a.Parent().Blocks[0] {
+				v = st.Val
+				continue
+			}
 			return v
 		case *ssa.Phi:
 			if ps.Havoc[x.Block()] {
